@@ -136,7 +136,11 @@ func subHandler(p Pair, side int, base string, authz bool) (evalFn, error) {
 		fwdResp: []string{"X-Result"}, fwdH: []string{"X-Fwd-A"}, fwdC: []string{"ca"},
 	}
 
+	fwdA := "1"
+
 	switch {
+	case is(p, side, "open", "fwd_header_value"):
+		fwdA = "9" // only the value of a forwarded request header differs
 	case is(p, side, "differ", "ep_url"):
 		sp.path = "/" + ep + "/e2"
 	case is(p, side, "differ", "ep_method"):
@@ -248,7 +252,7 @@ func subHandler(p Pair, side int, base string, authz bool) (evalFn, error) {
 
 	return func(cch cache.Cache) string {
 		ctx := c10.NewCtx(cch,
-			map[string]string{"X-Fwd-A": "1", "X-Fwd-Ab": "2"},
+			map[string]string{"X-Fwd-A": fwdA, "X-Fwd-Ab": "2"},
 			map[string]string{"ca": "3", "bca": "4", "caB": "5"})
 		sub := &subject.Subject{ID: sp.subID, Attributes: map[string]any{"role": sp.role}}
 
